@@ -8,6 +8,7 @@ import KVerif.Drv.Kan
 import KVerif.Drv.C02
 import KVerif.Drv.C14
 import KVerif.Drv.C18
+import KVerif.Drv.C07
 open KVerif.Drv
 
 /-- kvdrv <prop>: one case line in, one `M <model> ## S <spec>` line out. -/
@@ -24,6 +25,8 @@ def dispatch (prop : String) : Option (String → String × String) :=
   | "C14" => some C14.run
   | "C14o" => some C14.runOracle
   | "C18" => some C18.run
+  | "C07" => some (Kan.run "KAN")
+  | "C07o" => some C07o.runOracle
   | "C18o" => some C18.runOracle
   | "LALL" => some (Lay.run "LAY")
   | _ => none
